@@ -154,6 +154,7 @@ func runC11(r *hk.Run) {
 	r.Header = "From ReqV Require Import Model.C11Run."
 	r.CaseType = "c11_case"
 	r.CheckFn = "c11_check"
+	r.ShardSize = 50 // the end-to-end cases are large terms: keep every coqc small (well under 0.6 GB)
 	r.Rule = "authority pairs from a grammar (DNS names in mixed case +- trailing dot, IPv4, bracketed IPv6 +- zone; port absent/empty/digits), targets mostly derived from the origin by case/port/label mutation; policy evaluations on exported constructors; end-to-end chains through a real client (status 301/302/303/307/308, absolute and relative Location, GET and POST, hop counts directed at the configured limit); sequences of client operations (C / SetRedirectPolicy / Clone / request) with one observation per request; groups of chains in flight through one client under a harness-controlled order of CheckRedirect evaluations. Non-trivial: the authority has a port, brackets, upper-case letters or >=3 labels (host cases); origin and target differ textually (policy cases); chain has >=2 hops (chains); the sequence has a Clone, a SetRedirectPolicy after it and >=2 requests (client sequences); >=2 chains with >=1 hop each (concurrent groups). Distinct by rendered input."
 	rng := hk.NewRand(r.Seed)
 
